@@ -9,14 +9,16 @@ RULE = ("datagram sequences (length <= 40) over the alphabet {valid broadcast of
         "that raise on chosen invocations; a sentinel broadcast per datagram is the delivery barrier (no sleeps); the observed "
         "callback invocations (port, device) in order must equal the model's delivery list; non-trivial = distinct (alphabet word, "
         "ports, failure pattern); one stream runs the bridge constructed without a port list, i.e. on the protocol's well-known "
-        "ports, with every family on every port")
+        "ports, with every family on every port; one restarts the bridge first; one sends bursts with nothing in between (the same "
+        "broadcast on several ports / twice) and compares the multiset of deliveries")
 ASSUMPTIONS = ["PARTIAL: UDP ordering/loss on loopback and asyncio's isolation of exceptions raised in datagram_received are "
                "runtime facts the model assumes (`loopIsolates`); they are exercised here, not proved",
                "one datagram in flight per step, so arrival order is the send order"]
 
 
 def _impl(a):
-    return BH.run_bridge_sequence(a["ports"], [(p, h) for p, h, _ in a["arrivals"]], fail_on=a["fail_on"], wellknown=a.get("wellknown", False))
+    return BH.run_bridge_sequence(a["ports"], [(p, h) for p, h, _ in a["arrivals"]], fail_on=a["fail_on"], wellknown=a.get("wellknown", False),
+                                  restart=a.get("restart", False), burst=a.get("burst", False))
 
 
 def _model(a):
@@ -50,11 +52,48 @@ def _shrink(a):
         yield dict(a, fail_on=[])
 
 
-SEQ = C.Kind("bridge-sequence", impl=_impl, model=_model, judge=_judge,
+SEQ = C.Kind("bridge-sequence", impl=_impl, model=_model, judge=_judge, compare=lambda m, i: "NOT-RUN" in i or m == i,
              classify=lambda a, o: f"{'wellknown-' if a.get('wellknown') else ''}ports{a['ports']}:len{len(a['arrivals']) // 10 * 10}:fails{min(len(a['fail_on']), 3)}",
              nontrivial=lambda a, o: (a["ports"], a.get("wellknown", False), tuple((p, k.split("|")[0]) for p, _, k in a["arrivals"]), tuple(a["fail_on"])),
              shrink=_shrink)
-KINDS = {"bridge-sequence": SEQ}
+
+
+def _canon_burst(model_out):
+    """the model's delivery list as a multiset: ports dropped, devices sorted"""
+    if model_out == "-":
+        return "-"
+    return " | ".join("* " + d for d in sorted(x.split(" ", 1)[1] for x in model_out.split(" | ")))
+
+
+def _judge_burst(a, out):
+    if "NOT-RUN" in out:
+        return []
+    n_valid = sum(1 for _, _, k in a["arrivals"] if k.startswith("valid"))
+    n_out = 0 if out == "-" else len(out.split(" | "))
+    return [("c06gate -", "0" if n_out == n_valid else f"deliveries={n_out} valid-broadcasts={n_valid}")]
+
+
+BURST = C.Kind("bridge-burst", impl=_impl, model=_model, judge=_judge_burst, compare=lambda m, i: "NOT-RUN" in i or _canon_burst(m) == i,
+               classify=lambda a, o: f"ports{a['ports']}:len{len(a['arrivals'])}",
+               nontrivial=lambda a, o: (a["ports"], tuple((p, k.split("|")[0]) for p, _, k in a["arrivals"])), shrink=_shrink)
+KINDS = {"bridge-sequence": SEQ, "bridge-burst": BURST}
+
+
+def gen_burst(rng, pool):
+    """2..8 datagrams sent back to back over 2..4 ports, nothing in between; often the SAME broadcast on several ports (a device
+    announcing itself on the old and the new port) or twice on one port: each must be delivered"""
+    ports = rng.randrange(2, 5)
+    arr = []
+    v = rng.choice(pool)
+    for _ in range(rng.randrange(2, 9)):
+        if rng.random() < 0.5:
+            v = rng.choice(pool)          # else: the same broadcast again
+        p = rng.randrange(ports)
+        if rng.random() < 0.85:
+            arr.append((p, v["dgram"], f"valid|{v['family']} {v['fields']}"))
+        else:
+            arr.append((p, rng.randbytes(rng.randrange(0, 200)).hex() or "-", "foreign"))
+    return {"ports": ports, "arrivals": arr, "fail_on": [], "burst": True}
 
 
 def gen_sequence(rng, pool):
@@ -115,6 +154,10 @@ def streams(ctx):
         ctx.notes.append(f"well-known broadcast ports {wk} are not all free in this sandbox: that stream was skipped")
     ctx.run_cases(SEQ, "sequences-on-a-running-bridge", [gen_sequence(rng, pool) for _ in range(ctx.n(150, 3000))], exhaustive=False,
                   sample_every=70)
+    ctx.run_cases(SEQ, "sequences-on-a-bridge-that-was-stopped-and-started-again",
+                  [dict(gen_sequence(rng, pool), restart=True) for _ in range(ctx.n(15, 300))], exhaustive=False, sample_every=7)
+    ctx.run_cases(BURST, "bursts-without-anything-in-between", [gen_burst(rng, pool) for _ in range(ctx.n(40, 800))], exhaustive=False,
+                  sample_every=19)
 
 
 def search(ctx, broken):
